@@ -14,12 +14,14 @@ Local Open Scope Z_scope.
 (* element type: bits, signedness; C types of the intermediates per source file (SrcFacts) *)
 Record ity := { bits : Z; sgn : bool; pbits : Z (* width of the arithmetic in which pred1D/pred2D/pred3D are computed *);
                 psgn : bool (* ... signed? (uint32: the operands are unsigned int, the sum wraps mod 2^32 before it is widened) *);
-                dbits : Z (* width of diff, signed *) }.
+                dbits : Z (* width of diff, signed *);
+                clampT : bool (* 8- and 16-bit files: the reconstruction pred + 2ke is clamped to the element type's range on both sides *) }.
 
 Definition tmin (t:ity) : Z := if sgn t then - 2 ^ (bits t - 1) else 0.
 Definition tmax (t:ity) : Z := if sgn t then 2 ^ (bits t - 1) - 1 else 2 ^ (bits t) - 1.
 Definition in_type (t:ity) (v:Z) : bool := (tmin t <=? v) && (v <=? tmax t).
 Definition in_signed (w:Z) (v:Z) : bool := (- 2 ^ (w - 1) <=? v) && (v <? 2 ^ (w - 1)).
+Definition clamp_ty (t:ity) (v:Z) : Z := if clampT t then Z.max (tmin t) (Z.min (tmax t) v) else v.
 Definition in_pred (t:ity) (v:Z) : bool := if psgn t then in_signed (pbits t) v else (0 <=? v) && (v <? 2 ^ (pbits t)).
 
 (* kernel context: bound e (integral), interval capacity, shape (sizes slowest first, rank 1..3; a
@@ -66,10 +68,10 @@ Definition quant_int (c:ictx) (h:list Z) (p x:Z) : option (Z * Z) :=
   let d := Z.abs (x - p) in
   if d <? (cap c - 1) * e c then
     let s := (d + e c) / (2 * e c) in
-    if p <=? x then Some (radius c + s, p + s * (2 * e c)) else Some (radius c - s, p - s * (2 * e c))
+    if p <=? x then Some (radius c + s, clamp_ty (ty c) (p + s * (2 * e c))) else Some (radius c - s, clamp_ty (ty c) (p - s * (2 * e c)))
   else None.
 
-Definition dequant_int (c:ictx) (p q:Z) : Z := p + (q - radius c) * (2 * e c).
+Definition dequant_int (c:ictx) (p q:Z) : Z := clamp_ty (ty c) (p + (q - radius c) * (2 * e c)).
 
 (* the integer kernels as an instance of the generic codec: values are stored exactly as themselves *)
 Definition enc_int := enc Z ictx pred_int quant_int (fun _ x => x).
@@ -107,11 +109,11 @@ Definition recon_array (e cap:Z) (t:ity) (dims:list Z) (xs:list Z) : list Z * bo
   end.
 
 Definition ity_of (code:Z) : ity :=   (* SZ_UINT8 = 2 ... SZ_INT64 = 9, with the intermediate types of each source file *)
-  if code =? 2 then {| bits := 8; sgn := false; pbits := 64; psgn := true; dbits := 32 |}
-  else if code =? 3 then {| bits := 8; sgn := true; pbits := 64; psgn := true; dbits := 32 |}
-  else if code =? 4 then {| bits := 16; sgn := false; pbits := 64; psgn := true; dbits := 32 |}
-  else if code =? 5 then {| bits := 16; sgn := true; pbits := 64; psgn := true; dbits := 32 |}
-  else if code =? 6 then {| bits := 32; sgn := false; pbits := 32; psgn := false; dbits := 64 |}
-  else if code =? 7 then {| bits := 32; sgn := true; pbits := 32; psgn := true; dbits := 32 |}
-  else if code =? 8 then {| bits := 64; sgn := false; pbits := 64; psgn := true; dbits := 64 |}
-  else {| bits := 64; sgn := true; pbits := 64; psgn := true; dbits := 64 |}.
+  if code =? 2 then {| bits := 8; sgn := false; pbits := 64; psgn := true; dbits := 32; clampT := true |}
+  else if code =? 3 then {| bits := 8; sgn := true; pbits := 64; psgn := true; dbits := 32; clampT := true |}
+  else if code =? 4 then {| bits := 16; sgn := false; pbits := 64; psgn := true; dbits := 32; clampT := true |}
+  else if code =? 5 then {| bits := 16; sgn := true; pbits := 64; psgn := true; dbits := 32; clampT := true |}
+  else if code =? 6 then {| bits := 32; sgn := false; pbits := 32; psgn := false; dbits := 64; clampT := false |}
+  else if code =? 7 then {| bits := 32; sgn := true; pbits := 32; psgn := true; dbits := 32; clampT := false |}
+  else if code =? 8 then {| bits := 64; sgn := false; pbits := 64; psgn := true; dbits := 64; clampT := false |}
+  else {| bits := 64; sgn := true; pbits := 64; psgn := true; dbits := 64; clampT := false |}.
